@@ -111,7 +111,8 @@ func (g *gen) printSortFunc(typ *types.Slice) error {
 	case *types.Basic:
 		switch ttyp.Kind() {
 		case types.Complex64, types.Complex128, types.Bool:
-			p.P(g.sortPkg() + ".Slice(list, func(i, j int) bool { return " + g.compare.GetFuncName(ttyp, ttyp) + "(list[i], list[j]) < 0 })")
+			// requested for the element type, since the elements of a slice of a named bool or complex type are not assignable to the basic type.
+			p.P(g.sortPkg() + ".Slice(list, func(i, j int) bool { return " + g.compare.GetFuncName(etyp, etyp) + "(list[i], list[j]) < 0 })")
 		default:
 			p.P(g.sortPkg() + ".Slice(list, func(i, j int) bool { return list[i] < list[j] })")
 		}
